@@ -211,6 +211,9 @@ func run256(line string) (out string) {
 		}
 	}()
 	f := strings.Fields(line)
+	if f[0] == "regalloc" {
+		return runRegAlloc(f)
+	}
 	rawList := strings.Split(strings.TrimPrefix(f[len(f)-1], "@"), ",")
 	keyField := f[2]
 	if f[0] == "regions" {
@@ -290,6 +293,62 @@ func run256(line string) (out string) {
 		return kstr(p) + " " + strconv.Itoa(len(ps))
 	}
 	return "bad-op"
+}
+
+// runRegAlloc is the composition the sweeping provider performs for every explored prefix:
+// RegionsFromPeers, AssignKeysToRegions, then AllocateToKClosest(region.Keys, region.Peers, r) per region.
+//
+//	regalloc <peers as +key,...> <r> <order> <covered> <item keys> @<peer raws>;<item raws>
+//
+// out: [prefix>peer/peer>dest:item/item;dest:item, ...]  (regions in the order returned)
+func runRegAlloc(f []string) string {
+	tag := strings.SplitN(strings.TrimPrefix(f[len(f)-1], "@"), ";", 2)
+	praw, iraw := strings.Split(tag[0], ","), strings.Split(tag[1], ",")
+	var peers []peer.ID
+	peerKey := map[peer.ID]string{}
+	for i, op := range splitList(f[1]) {
+		id := peer.ID(praw[i])
+		peers = append(peers, id)
+		peerKey[id] = op[1:]
+	}
+	var keys []mh.Multihash
+	itemKey := map[string]string{}
+	for i, k := range splitList(f[5]) {
+		keys = append(keys, mh.Multihash(iraw[i]))
+		itemKey[iraw[i]] = k
+	}
+	r, _ := strconv.Atoi(f[2])
+	var ob [32]byte
+	for i := 0; i < 256 && i < len(f[3]); i++ {
+		if f[3][i] == '1' {
+			ob[i/8] |= 1 << (7 - i%8)
+		}
+	}
+	regions := RegionsFromPeers(peers, r, bit256.NewKeyFromArray(ob), pkey(f[4]))
+	regions = AssignKeysToRegions(regions, keys)
+	parts := []string{}
+	for _, rg := range regions {
+		var ps []string
+		for _, e := range AllEntries(rg.Peers, zeroKey) {
+			ps = append(ps, peerKey[e.Data])
+		}
+		sort.Strings(ps)
+		res := AllocateToKClosest(rg.Keys, rg.Peers, r)
+		var dparts []string
+		for d, batches := range res {
+			var items []string
+			for _, b := range batches {
+				for _, m := range b {
+					items = append(items, itemKey[string(m)])
+				}
+			}
+			sort.Strings(items)
+			dparts = append(dparts, peerKey[d]+":"+strings.Join(items, "/"))
+		}
+		sort.Strings(dparts)
+		parts = append(parts, kstr(rg.Prefix)+">"+strings.Join(ps, "/")+">"+strings.Join(dparts, ";"))
+	}
+	return slist(parts)
 }
 
 func rawTag(keys []string, raws map[string]string) string {
@@ -542,7 +601,7 @@ func randomCase(r *vu.RNG, c *vu.Case) {
 	n := []int{4, 5, 6, 8, 12, 256}[r.Intn(6)]
 	want := r.Range(1, 24)
 	c.Tag(fmt.Sprintf("bits%d", n))
-	switch r.Intn(14) {
+	switch r.Intn(16) {
 	case 0:
 		set := randomPF(r, n, want)
 		c.In = append(c.In, "entries "+buildOps(r, set, n, c)+" "+r.Bits(n+1))
@@ -686,6 +745,38 @@ func randomCase(r *vu.RNG, c *vu.Case) {
 			return false
 		})
 		c.In = append(c.In, fmt.Sprintf("shortest %s %s %s", dash(target), slist(keys), rawTag(keys, raws)))
+		c.Tag("sha256-ids")
+	case 14, 15:
+		// regions + assignment + allocation, as the provider composes them, on real peer ids and multihashes
+		praws, iraws := map[string]string{}, map[string]string{}
+		cov := r.Bits(r.Intn(4))
+		var pkeys, ikeys []string
+		for i, np := 0, r.Range(1, 24); i < np; i++ {
+			pre := cov
+			if r.Chance(1, 2) {
+				pre += r.Bits(r.Intn(4))
+			}
+			raw, bs := idWithPrefix(r, pre)
+			praws[bs] = raw
+			pkeys = append(pkeys, bs)
+		}
+		for i, ni := 0, r.Range(1, 16); i < ni; i++ {
+			pre := cov
+			if r.Chance(1, 2) {
+				pre += r.Bits(r.Intn(5))
+			}
+			if r.Chance(1, 12) {
+				pre = r.Bits(len(cov)) // sometimes outside the covered prefix: nearest-region fallback
+			}
+			raw, bs := idWithPrefix(r, pre)
+			if _, dup := iraws[bs]; dup {
+				continue
+			}
+			iraws[bs] = raw
+			ikeys = append(ikeys, bs)
+		}
+		tag := rawTag(pkeys, praws) + ";" + strings.TrimPrefix(rawTag(ikeys, iraws), "@")
+		c.In = append(c.In, fmt.Sprintf("regalloc %s %d %s %s %s %s", adds(pkeys), r.Range(1, 5), r.Bits(256), dash(cov), slist(ikeys), tag))
 		c.Tag("sha256-ids")
 	case 13:
 		set := randomPF(r, n, want)
